@@ -612,7 +612,7 @@ def rule_heights(ctx):
     return n
 
 
-def rule_touched(ctx):
+def rule_touched(ctx, rule='C03.TOUCHED'):
     bak = ctx.func('bp', 'BlockProcessor.backup_block')
     spend = ctx.func('bp', 'BlockProcessor.spend_utxo')
     cfg = ctx.cfg(bak)
@@ -632,7 +632,7 @@ def rule_touched(ctx):
         ok = isinstance(arg, ast.Subscript) and norm(arg.value) == rv
         ok2, wit = pr.control_equivalent_in_loop(cfg, bout, [cfg.node(q.stmt(sp[0]))], [cfg.node(q.stmt(a_out[0]))])
         ok = ok and ok2
-    ctx.check(ok, 'C03.TOUCHED', ctx.key(bak, bout, 'spent outputs touched'),
+    ctx.check(ok, rule, ctx.key(bak, bout, 'spent outputs touched'),
               'the script hash of every output removed by the backup enters self.touched',
               'script hashes of outputs removed by the backup do not all reach self.touched '
               '(their cached histories / subscribers are never refreshed)', witness=wit, loc=ctx.loc(bak, bout))
@@ -645,7 +645,7 @@ def rule_touched(ctx):
         ok = isinstance(arg, ast.Subscript) and norm(arg.value) == norm(puts[0].args[1])
         ok2, wit = pr.control_equivalent_in_loop(cfg, bin_, [cfg.node(q.stmt(puts[0]))], [cfg.node(q.stmt(a_in[0]))])
         ok = ok and ok2
-    ctx.check(ok, 'C03.TOUCHED', ctx.key(bak, bin_, 'restored inputs touched'),
+    ctx.check(ok, rule, ctx.key(bak, bin_, 'restored inputs touched'),
               'the script hash of every restored input enters self.touched',
               'script hashes of restored inputs do not all reach self.touched', witness=wit, loc=ctx.loc(bak, bin_))
     n += 1
@@ -661,7 +661,7 @@ def rule_touched(ctx):
                     rebinds.append((g, q.stmt(c)))
     allowed = {'BlockProcessor.on_caught_up', 'BlockProcessor.advance_blocks'}
     bad = [f'{ctx.loc(g, s)} {g.qual}: {norm(s)}' for g, s in rebinds if g.qual not in allowed]
-    ctx.check(not bad, 'C03.TOUCHED', 'electrumx/server/block_processor.py :: BlockProcessor :: touched reset sites',
+    ctx.check(not bad, rule, 'electrumx/server/block_processor.py :: BlockProcessor :: touched reset sites',
               'the touched set is reset only after it was reported (on_caught_up) or while not serving (advance_blocks)',
               f'the touched set is reset elsewhere: {bad}')
     n += 1
@@ -671,7 +671,7 @@ def rule_touched(ctx):
         conds = pr.control_conditions(s, ab.node)
         ok = any(b and norm(t) == 'not self.caught_up' for t, b, _p in conds) or \
             any((not b) and norm(t) == 'self.caught_up' for t, b, _p in conds)
-        ctx.check(ok, 'C03.TOUCHED', ctx.key(ab, s), 'touched is discarded only while there are no clients (not caught up)',
+        ctx.check(ok, rule, ctx.key(ab, s), 'touched is discarded only while there are no clients (not caught up)',
                   'touched is discarded while clients may be subscribed', loc=ctx.loc(ab, s))
         n += 1
     return n
